@@ -43,7 +43,10 @@ type plan struct {
 	// PollFirst selects the loop shape of the repository's EOS example (poll, then Begin,
 	// produce, End: a rebalance can land between the poll and Begin) instead of Begin, poll, produce, End.
 	PollFirst bool
-	Steps     []step
+	// DropMod makes the stage a filter: inputs whose key is divisible by DropMod produce no output
+	// (1 = every input is dropped, so every transaction only commits offsets; 0 = no filtering).
+	DropMod int64
+	Steps   []step
 }
 
 func genPlan(t *rapid.T) plan {
@@ -51,6 +54,7 @@ func genPlan(t *rapid.T) plan {
 		Prefill: rapid.IntRange(3, 12).Draw(t, "prefill"), Slots: rapid.IntRange(1, 4).Draw(t, "slots"), Balancer: rapid.SampledFrom([]string{"coop", "coop", "range", "sticky"}).Draw(t, "balancer"),
 		PollMax: rapid.SampledFrom([]int{0, 2, 5}).Draw(t, "pollmax"), Work: rapid.SampledFrom([]time.Duration{0, 20 * time.Millisecond, 400 * time.Millisecond}).Draw(t, "work")}
 	p.PollFirst = rapid.Bool().Draw(t, "pollfirst")
+	p.DropMod = rapid.SampledFrom([]int64{0, 0, 0, 2, 3, 1}).Draw(t, "dropmod")
 	n := rapid.IntRange(2, 16).Draw(t, "nsteps")
 	kinds := []string{"join", "join", "leave", "restart", "netfault", "netfault", "netfault", "killall", "append", "append", "sleep"}
 	for i := 0; i < n; i++ {
@@ -77,7 +81,7 @@ type member struct {
 func TestExactlyOncePipeline(t *testing.T) {
 	rapid.Check(t, func(rt *rapid.T) {
 		p := genPlan(rt)
-		var faultsBetween, restarts, rebalances int
+		var faultsBetween, restarts, rebalances, offsetChecks int
 		drained := false
 		bubble.Run(t, rt, func(e *bubble.Env) {
 			e.StartCluster(bubble.ClusterOpts{Brokers: p.Brokers, Topics: map[string]int32{"in": p.InParts, "out": p.OutParts}})
@@ -101,6 +105,44 @@ func TestExactlyOncePipeline(t *testing.T) {
 			appendIn(p.Prefill * int(p.InParts))
 			var mu sync.Mutex
 			var endErrs []string
+			offsetViolation := ""
+			rawOffsets := e.RawClient()
+			fetchCommitted := func() (map[int32]int64, bool) {
+				freq := kmsg.NewPtrOffsetFetchRequest()
+				freq.Group = "g10"
+				rg := kmsg.NewOffsetFetchRequestGroup()
+				rg.Group = "g10"
+				freq.Groups = append(freq.Groups, rg)
+				fc, cancel := context.WithTimeout(ctx, 30*time.Second)
+				defer cancel()
+				fresp, err := freq.RequestWith(fc, rawOffsets)
+				if err != nil {
+					return nil, false
+				}
+				got := map[int32]int64{}
+				for _, g := range fresp.Groups {
+					if g.ErrorCode != 0 {
+						return nil, false
+					}
+					for _, t := range g.Topics {
+						for _, pp := range t.Partitions {
+							if pp.ErrorCode != 0 {
+								return nil, false
+							}
+							got[pp.Partition] = pp.Offset
+						}
+					}
+				}
+				for _, t := range fresp.Topics {
+					for _, pp := range t.Partitions {
+						if pp.ErrorCode != 0 {
+							return nil, false
+						}
+						got[pp.Partition] = pp.Offset
+					}
+				}
+				return got, true
+			}
 			members := make([]*member, p.Slots)
 			incarn := make([]int, p.Slots)
 			balancer := func() kgo.GroupBalancer {
@@ -181,8 +223,15 @@ func TestExactlyOncePipeline(t *testing.T) {
 									}
 								}
 								n := 0
+								polledTo := map[int32]int64{}
 								fs.EachRecord(func(r *kgo.Record) {
 									n++
+									if r.Offset+1 > polledTo[r.Partition] {
+										polledTo[r.Partition] = r.Offset + 1
+									}
+									if k := int64(binary.BigEndian.Uint64(r.Key)); p.DropMod != 0 && k%p.DropMod == 0 {
+										return // filtered out: consumed, nothing produced
+									}
 									sess.Produce(ctx, &kgo.Record{Topic: "out", Partition: int32(binary.BigEndian.Uint64(r.Key) % uint64(p.OutParts)), Value: append([]byte(nil), r.Key...)}, nil)
 								})
 								if p.Work > 0 && n > 0 {
@@ -193,6 +242,24 @@ func TestExactlyOncePipeline(t *testing.T) {
 								ecancel()
 								if n > 0 || err != nil {
 									e.Log.Add("end", int64(n), fmt.Sprintf("%s committed=%v", m.name, committed), err, 0, 0)
+								}
+								if err == nil && committed && n > 0 {
+									// End reported a successful commit: the offsets of what this transaction consumed
+									// are committed now (group offsets only move forward in this pipeline)
+									if got, ok := fetchCommitted(); ok {
+										for pt, want := range polledTo {
+											if got[pt] < want {
+												mu.Lock()
+												if offsetViolation == "" {
+													offsetViolation = fmt.Sprintf("%s: End returned committed=true, err=nil for a transaction that consumed in/%d up to offset %d, but the group's committed offset for that partition is %d right afterwards", m.name, pt, want-1, got[pt])
+												}
+												mu.Unlock()
+											}
+										}
+										mu.Lock()
+										offsetChecks++
+										mu.Unlock()
+									}
 								}
 								if err != nil {
 									mu.Lock()
@@ -322,14 +389,30 @@ func TestExactlyOncePipeline(t *testing.T) {
 					count[int64(binary.BigEndian.Uint64(r.Value))]++
 				}
 			}
-			var missing, dup []int64
+			mu.Lock()
+			ov := offsetViolation
+			mu.Unlock()
+			if ov != "" {
+				rt.Fatalf("%s\nplan: %+v\nhistory tail:\n%s", ov, p, e.Log.Dump(60))
+			}
+			var missing, dup, leaked []int64
 			for id := int64(1); id <= total; id++ {
-				switch c := count[id]; {
+				c := count[id]
+				if p.DropMod != 0 && id%p.DropMod == 0 {
+					if c > 0 {
+						leaked = append(leaked, id)
+					}
+					continue
+				}
+				switch {
 				case c == 0:
 					missing = append(missing, id)
 				case c > 1:
 					dup = append(dup, id)
 				}
+			}
+			if len(leaked) > 0 {
+				rt.Fatalf("VERIF-INFRA: filtered inputs %v appear in the output", leaked)
 			}
 			if len(missing) > 0 || len(dup) > 0 {
 				sort.Slice(dup, func(i, j int) bool { return dup[i] < dup[j] })
@@ -341,7 +424,7 @@ func TestExactlyOncePipeline(t *testing.T) {
 			ks = append(ks, s.Kind)
 		}
 		nt := drained && (faultsBetween > 0 || rebalances > 1)
-		ev.Case(fmt.Sprintf("%d|%d|%s|%d|%v|%s", p.Slots, p.InParts, p.Balancer, p.PollMax, p.Work, strings.Join(ks, ",")), nt)
+		ev.Case(fmt.Sprintf("%d|%d|%s|%d|%v|%v|%d|%s", p.Slots, p.InParts, p.Balancer, p.PollMax, p.Work, p.PollFirst, p.DropMod, strings.Join(ks, ",")), nt)
 		if !drained {
 			ev.Class("inconclusive-not-drained")
 		}
@@ -355,6 +438,8 @@ func TestExactlyOncePipeline(t *testing.T) {
 			ev.Class("session-restarted-after-End-error")
 		}
 		ev.Class("balancer:" + p.Balancer)
+		ev.Class(fmt.Sprintf("filter-dropmod:%d", p.DropMod))
+		ev.ClassN("committed-offsets-verified-after-End", int64(offsetChecks))
 		if p.PollFirst {
 			ev.Class("loop:poll-then-begin")
 		} else {
